@@ -374,7 +374,11 @@ fn layout_cmd(args: &[String]) -> Value {
 
 fn main() {
     let args: Vec<String> = std::env::args().collect();
-    std::panic::set_hook(Box::new(|_| {}));
+    std::panic::set_hook(Box::new(|i| {
+        if std::env::var("CB_DEBUG").is_ok() {
+            eprintln!("[panic] {i}");
+        }
+    }));
     let out = match args.get(1).map(|s| s.as_str()) {
         Some("open") => open_cmd(&args),
         Some("repair") => repair_cmd(&args),
